@@ -62,8 +62,16 @@ FlattenLoop(P, items, known, fuel) ==
 
 Flatten(P) == FlattenLoop(P, P.items, <<>>, 40)
 
+\* A rule block may stand inside an arm (item [k |-> "ruledef", rules]): it exists exactly when its arm is
+\* selected, and then it is a block like those written at the top level, wherever it stands in the text.
+RECURSIVE BlockRules(_, _)
+BlockRules(items, i) ==
+    IF i > Len(items) THEN <<>>
+    ELSE (IF items[i].k = "ruledef" THEN items[i].rules ELSE <<>>) \o BlockRules(items, i + 1)
+
 AssembleCond(P) ==
     LET f == Flatten(P) IN
     IF ~f.ok THEN [t |-> "err", why |-> f.why, out |-> <<>>, syms |-> <<>>]
-    ELSE Assemble([P EXCEPT !.items = f.items])
+    ELSE Assemble([P EXCEPT !.items = SelectSeq(f.items, LAMBDA it : it.k # "ruledef"),
+                            !.rules = P.rules \o BlockRules(f.items, 1)])
 =============================================================================
